@@ -239,6 +239,42 @@ impl Property for RefProp {
         if case["kind"].as_str() == Some("coverage") {
             return check_coverage(case, stats);
         }
+        if case["kind"].as_str() == Some("session") {
+            let inputs: Vec<&str> = case["inputs"].as_array().map(|a| a.iter().filter_map(|i| i.as_str()).collect()).unwrap_or_default();
+            stats.evals(2);
+            stats.nontrivial(&inputs.join(" "));
+            // one program
+            let (batch, _) = observe(&inputs.join(" "));
+            // input by input into one interpreter
+            run::default_budget();
+            let mut interp = exec::safe_interpreter();
+            let mut last = String::from("nothing");
+            for text in &inputs {
+                let outcome = match run::parse_guarded(&interp, text) {
+                    Ok(Ok(code)) => run::exec_unscoped_guarded(&code, &mut interp),
+                    Ok(Err(kind)) => Outcome::Rejected(kind),
+                    Err(o) => o,
+                };
+                last = match &outcome {
+                    Outcome::Value(v) => format!("value {}", canon::canon(v).show()),
+                    Outcome::ExecError(k) => format!("run-time error {k}"),
+                    o => o.short(),
+                };
+                if !matches!(outcome, Outcome::Value(_)) {
+                    // an error ends the batch program; the session goes on with the next input
+                    if batch == last {
+                        return Verdict::Pass;
+                    }
+                }
+            }
+            // (after a run-time error the batch program stops, a session continues: only error-free
+            // sessions and sessions ending in the error are compared)
+            return if batch == last || batch.starts_with("run-time error") {
+                Verdict::Pass
+            } else {
+                fail("C13:session", format!("inputs {inputs:?}\n  as one program: {batch}\n  input by input into one interpreter: {last}"))
+            };
+        }
         if case["kind"].as_str() == Some("scope") {
             // a construct that binds `v` locally, between a declaration of `v` and a use of it: the
             // program means what it means without the construct
@@ -250,7 +286,10 @@ impl Property for RefProp {
             return if a == b {
                 Verdict::Pass
             } else {
-                fail("C06:binder-scope", format!("`{with}`\n  gives {a}\n  without the construct that binds `v` locally, `{without}`\n  gives {b}"))
+                fail(
+                    case["sig"].as_str().unwrap_or("C06:binder-scope").to_string(),
+                    format!("`{with}`\n  gives {a}\n  without the inner construct, `{without}`\n  gives {b}"),
+                )
             };
         }
         if case["kind"].as_str() == Some("probe") {
@@ -527,6 +566,27 @@ pub fn run(session: &Session, prop: &'static RefProp, rule: &str) -> i32 {
         crate::props::soundness::run_cells(session);
     }
     if prop.id == "C13" && !session.stopped() {
+        // cells that live in the interpreter across several parsed inputs (REPL / embedding): reads and
+        // writes of a later input go to the cell, not to what it held when the input was parsed
+        let sessions: [&[&str]; 10] = [
+            &["c := mut 0;", "c += 5; *c"],
+            &["c := mut 0;", "c += 5;", "*c"],
+            &["counter := mut 10;", "counter += 1;", "counter += 1;", "counter += 1; *counter"],
+            &["cs := [mut 1, mut 2];", "cs[1] = 42;", "get := () -> int { return *cs[1]; };", "cs[1] += 1;", "get()"],
+            &["c := mut 1; d := c;", "d = 7;", "(*c, *d)"],
+            &["c := mut [int] [];", "c += [1];", "c += [2];", "(*c, std.len(*c))"],
+            &["c := mut 3;", "f := () -> int { c *= 2; return *c; };", "f();", "(f(), *c)"],
+            &["s := struct{c := mut 0};", "s.c += 4;", "t := s;", "t.c += 1; *s.c"],
+            &["c := mut int|string 1;", "c = \"s\";", "match *c { i: int => i, x: string => 0, }"],
+            &["c := mut 0;", "c /= 0;", "c += 1; *c"],
+        ];
+        for inputs in sessions {
+            if !session.stopped() {
+                session.run_one(prop, &json!({"kind": "session", "inputs": inputs}));
+            }
+        }
+    }
+    if prop.id == "C13" && !session.stopped() {
         // `c op= v` is computed from the content at the moment of the update: updates that race on one
         // cell must not lose each other (the orbit / bit / append workloads of C16, a few repetitions)
         let reps = session.tier.of(3, 20);
@@ -545,6 +605,40 @@ pub fn run(session: &Session, prop: &'static RefProp, rule: &str) -> i32 {
     if prop.id == "C06" && !session.stopped() {
         let cases = scope_cases();
         session.set_extra("binder_scope_cases", json!(cases.len()));
+        session.run_enum(prop, cases);
+    }
+    if prop.id == "C12" && !session.stopped() {
+        // break / continue / return of an enclosing loop or function placed after an inner construct of
+        // every kind: the inner construct does not change what they refer to
+        let inner = [
+            "k2 := mut 0; while x: int = src(k2) { k2 += 1; }",
+            "k2 := mut 0; while x: int = src(k2) { k2 += 1; if x > 5 { break; }; continue; }",
+            "loop { break; }",
+            "while false { }",
+            "for x in [1, 2]~ { if x > 1 { break; }; continue; }",
+            "if x: int = src(mut 0) { x }",
+            "if x: string = src(mut 0) { x } else { 0 }",
+            "match src(mut 0) { x: int => { x }, => { 0 }, }",
+            "{ 1 }",
+            "g := () -> int { return 1; }; g()",
+            "[1, 2]~ @ (x: int) -> int { return x; } $]",
+            "m := mod { a := 1; }",
+        ];
+        let src = "src := (k: mut int) -> int|string { if *k < 2 { return *k; } return \"end\"; }; ";
+        let mut cases = vec![];
+        for i in inner {
+            for (open, close) in [
+                ("k := mut 0; n := mut 0; loop { k += 1; ", "if *k >= 3 { break; }; n += 1; continue; n += 100; }; (*k, *n)"),
+                ("k := mut 0; n := mut 0; while *k < 3 { k += 1; ", "if *k == 2 { continue; }; n += 1; }; (*k, *n)"),
+                ("n := mut 0; for e in [1, 2, 3, 4]~ { ", "if e == 2 { continue; }; if e == 4 { break; }; n += e; }; *n"),
+                ("k := mut 0; n := mut 0; w := () -> int|string { k += 1; if *k > 3 { return \"end\"; }; return *k; }; while e: int = w() { ", "if e == 2 { continue; }; n += e; }; (*k, *n)"),
+                ("f := (c: int) -> int { k := mut 0; loop { k += 1; ", "if *k >= c { return *k * 10; }; }; return 0; }; (f(1), f(3))"),
+                ("k := mut 0; n := mut 0; loop { k += 1; if *k > 2 { break; }; j := mut 0; loop { j += 1; ", "if *j >= 2 { break; }; n += 1; continue; }; n += 10; }; (*k, *n)"),
+            ] {
+                cases.push(json!({"kind": "scope", "with": format!("{src}{open}{i}; {close}"), "without": format!("{src}{open}{close}"), "sig": "C12:placement"}));
+            }
+        }
+        session.set_extra("valid_placement_cases", json!(cases.len()));
         session.run_enum(prop, cases);
     }
     if prop.id == "C12" && !session.stopped() {
